@@ -547,6 +547,37 @@ func runC07(args []string) int {
 			if err != nil {
 				rep.Fail("c07:marshal", err.Error(), desc)
 			} else {
+				// history on ONE witness object: Public() after the object was refilled from other bytes, and after a previously
+				// returned public witness was itself overwritten, must still be the public prefix of the current vector
+				var prevData []byte
+				{
+					other := make([]*big.Int, len(vec))
+					for i := range vec {
+						other[i] = new(big.Int).Add(vec[i], big.NewInt(int64(i+1)))
+						other[i].Mod(other[i], fld.q)
+					}
+					prevData, _ = witnessFromValues(fld.q, len(pubIdx), other).MarshalBinary()
+				}
+				if prevData != nil && len(pubIdx) > 0 {
+					wr, _ := witness.New(fld.q)
+					if wr.UnmarshalBinary(prevData) == nil {
+						p1, _ := wr.Public()
+						if wr.UnmarshalBinary(data) == nil {
+							p2, e2 := wr.Public()
+							if e2 != nil || fmt.Sprint(vecToBig(p2.Vector(), fld.q)) != fmt.Sprint(vec[:len(pubIdx)]) {
+								rep.Fail("c07:public-after-refill", "Public() of a witness object refilled from other bytes is not the public prefix of its current vector", desc)
+							}
+							if p1 != nil && p2 != nil {
+								_ = p1.UnmarshalBinary(prevData) // recycle an earlier result
+								p3, _ := wr.Public()
+								if p3 == nil || fmt.Sprint(vecToBig(p3.Vector(), fld.q)) != fmt.Sprint(vec[:len(pubIdx)]) {
+									rep.Fail("c07:public-aliased", "overwriting a previously returned public witness changes what Public() returns", desc)
+								}
+							}
+						}
+					}
+					rep.Count("witness-object-reused")
+				}
 				w2, _ := witness.New(fld.q)
 				if err := w2.UnmarshalBinary(data); err != nil {
 					rep.Fail("c07:unmarshal", err.Error(), desc)
